@@ -9,6 +9,11 @@ import ODataVerif.Model.Parser
 import ODataVerif.Spec.Builtins
 import ODataVerif.Model.Typing
 import ODataVerif.Spec.Types
+import ODataVerif.Model.Visitor
+import ODataVerif.Model.Rewrite
+import ODataVerif.Spec.Traversal
+import ODataVerif.Spec.Reroot
+import ODataVerif.Spec.Subst
 open OQ OQ.Wire
 
 def encTok : Tok → String
@@ -57,6 +62,22 @@ def withExpr (w : String) (f : Expr → String) : String :=
                | none => "not-expr")
   | none => "bad-arg"
 
+def withTree (w : String) (f : Tree → String) : String :=
+  match decTree w with
+  | some t => f t
+  | none => "bad-arg"
+
+/-- the wrapper used as override `g` on both sides: `Call(Identifier("W"), [n])` -/
+def wrapW (n : Tree) : Tree :=
+  .node "Call" (.cons (mkIdent ['W']) (.cons (.list (.cons n .nil)) .nil))
+
+def pairsOf : TreeList → List (Tree × Tree)
+  | .cons k (.cons v rest) => (k, v) :: pairsOf rest
+  | _ => []
+
+def encTrace (ts : List Tree) : String :=
+  " ".intercalate (ts.map (fun t => handlerName t ++ ":" ++ encTree t))
+
 def handle (args : List String) : String :=
   match args with
   | ["ping"] => "pong"
@@ -71,6 +92,28 @@ def handle (args : List String) : String :=
       match decStr h with
       | some s => encOutcome (fun e => encTree e.toTree) (parseText pyCharEnv s)
       | none => "bad-arg"
+  | ["trace", w] => withTree w (fun t => encTrace (visitTrace t))
+  | ["preorder", w] => withTree w (fun t => encTrace (Spec.nodesOf t))
+  | ["tgeneric", w] => withTree w (fun t => encTree (tvisit none t))
+  | ["toverride", k, mode, w] => withTree w (fun t => encTree (tvisit (some ⟨k, wrapW, mode == "rec"⟩) t))
+  | ["mapkind", k, mode, w] =>
+      withTree w (fun t => encTree (if mode == "rec" then Spec.mapKind k wrapW t else Spec.replaceTD k wrapW t))
+  | ["treeeq", a, b] =>
+      (match decTree a, decTree b with
+       | some x, some y => if x = y then "True" else "False"
+       | _, _ => "bad-arg")
+  | ["strip", x, w] => withTree x (fun xt => withTree w (fun t => encTree (strip xt t)))
+  | ["reroot", x, w] => withTree x (fun xt => withTree w (fun t => encTree (Spec.reroot xt t)))
+  | ["alias", m, w] =>
+      withTree m (fun mt => withTree w (fun t =>
+        match mt with
+        | .list kvs => encTree (alias (pairsOf kvs) t)
+        | _ => "bad-arg"))
+  | ["subst", m, w] =>
+      withTree m (fun mt => withTree w (fun t =>
+        match mt with
+        | .list kvs => encTree (Spec.subst (pairsOf kvs) [] t)
+        | _ => "bad-arg"))
   | ["infer", w] => withExpr w (fun e => match inferType e with | some t => t.className | none => "None")
   | ["typeof", w] => withExpr w (fun e => encOTy (Spec.typeOf gamma e))
   | ["typecheck", w, allowed] =>
